@@ -173,6 +173,10 @@ class H11Protocol:
                 elif event is h11.PAUSED:
                     await self.can_read.clear()
                     await self.can_read.wait()
+                    if self.connection.our_state is not h11.IDLE:
+                        # The connection was not recycled (it is being
+                        # closed), there is nothing more to read.
+                        break
                 elif isinstance(event, h11.ConnectionClosed) or event is h11.NEED_DATA:
                     break
                 elif self.stream is None:
